@@ -43,3 +43,39 @@ def generate(tag, consts, sample=None, rng=None, simulate=None, depth=None, seed
         n = sample
     c.log("  gen %s: %d behaviours (tlc %.1fs, %d states)" % (tag, n, r.wall, r.distinct))
     return out, n, r
+
+
+def exp_consts(H, F=0, ForkAt=0, CpHs=(2,), Cap=2, Forbid=(), Findings=(), MaxEnv=6, Emit="none", Scenario="x"):
+    d = dict(BASE)
+    d.update({"Cap": Cap, "Forbid": c.tla_set(Forbid), "Findings": c.tla_set(Findings), "H": H, "F": F, "ForkAt": ForkAt,
+              "CpHs": c.tla_set(CpHs), "MaxEnv": MaxEnv, "Emit": '"%s"' % Emit, "Scenario": '"%s"' % Scenario})
+    return d
+
+
+def tlc_exp(consts, invariants, view="XView", emit_file=None, timeout=1800, workers=None):
+    d = c.sub("cfg")
+    cfg = os.path.join(d, "syncexp_%d.cfg" % random.randrange(1 << 30))
+    c.write_cfg(cfg, "MXSpec", consts, invariants, (), view=view, extra=EXTRA)
+    return c.run_tlc("MC_SyncExp", cfg, timeout=timeout, out_file=emit_file, workers=workers)
+
+
+def generate_exp(tag, consts, sample=None, rng=None):
+    d = c.sub("gen")
+    raw = os.path.join(d, tag + ".out")
+    r = tlc_exp(consts, ["EmitInv"], view=None, emit_file=raw)
+    if not r.ok:
+        raise c.Infra("syncexp generation %s failed: %s" % (tag, r.out[-1500:]))
+    out = os.path.join(d, tag + ".jsonl")
+    n = c.unquote_lines(raw, out)
+    os.unlink(raw)
+    if sample and n > sample:
+        rng = rng or random.Random(0)
+        keep = set(rng.sample(range(n), sample))
+        with open(out) as fi, open(out + ".s", "w") as fo:
+            for i, line in enumerate(fi):
+                if i in keep:
+                    fo.write(line)
+        os.replace(out + ".s", out)
+        n = sample
+    c.log("  gen %s: %d behaviours (tlc %.1fs, %d states)" % (tag, n, r.wall, r.distinct))
+    return out, n, r
